@@ -796,8 +796,12 @@ def run(report, p):
     r11.check(True, None, None, "")
 
     lazy_reuse_rule(report, p, 'R3.13', [need(cmds, n_).qual for n_ in ('create', 'verify', 'diff')], 'create / verify / diff')
+    from .common import unorderable_sort_rule
+
+    unorderable_sort_rule(report, p, 'R3.16', 'a command')
 
     # ---- rules shared with other properties (same mechanism, same rule, reported under every property it can break)
+    include_rules(report, p, 'c12', ['R12.13'], 'an ignored path is neither new nor missing: the traversal and the missing-file filter must agree on the string they match')
     include_rules(report, p, 'c08', ['R8.8'], 'an unchanged file of a nested history verifies only if its recorded entries are looked up in that nested history')
     include_rules(report, p, 'c06', ['R6.3'], 'the loader recognises every manifest name the tool generates, for every folder name: a generation that is silently passed over makes the history look shorter or empty' + ' - verify reports every recorded file as new')
     include_rules(report, p, 'c05', ['R5.7'], 'what counts as a nested history decides which folders are verified against which history and which tree makes the loader refuse: exactly the directories that contain an ascmhl FOLDER (as listed by the walk)')
